@@ -115,8 +115,8 @@ def c04_jobs(tier):
         Job('alias-probe', 'c04', 'alias', q(tier, 160, 3000), max_crashes=1000, timeout=q(tier, 900, 7200)),
     ]
     if tier == 'thorough':
-        jobs += [Job('small-1byte', 'c04', 'small5', 0, defines=TINY[1], timeout=20000),
-                 Job('hist-float', 'c04', 'hist', 100000, defines={'ARDUINOJSON_USE_DOUBLE': 0, 'ARDUINOJSON_STRING_LENGTH_SIZE': 1}, timeout=10000)]
+        jobs += [Job('small-1byte', 'c04', 'small5', 0, defines=TINY[1], timeout=20000)]
+    jobs.append(Job('hist-float', 'c04', 'hist', q(tier, 4000, 100000), defines={'ARDUINOJSON_USE_DOUBLE': 0, 'ARDUINOJSON_STRING_LENGTH_SIZE': 1}, timeout=q(tier, 900, 10000)))
     return jobs
 
 
